@@ -151,13 +151,16 @@ def instrument(framer, rec, run=None):
         rec.pip_calls.append((list(units) if isinstance(units, (list, tuple)) else units,
                               args.get("single", "MISSING"), len(args["data"])))
         rec.in_pip = True
+        # the call is forwarded EXACTLY as the handler made it (same positional/keyword split): only the
+        # callback is wrapped — how a front-end passes `unit` is part of what is under test
+        a2 = list(a)
+        kw2 = dict(kw)
+        if len(a2) > 1:
+            a2[1] = wrapped
+        else:
+            kw2["callback"] = wrapped
         try:
-            if "unit" in args:
-                orig_pip(args["data"], wrapped, args["unit"],
-                         **{k: v for k, v in args.items() if k not in ("data", "callback", "unit")})
-            else:
-                orig_pip(args["data"], wrapped,
-                         **{k: v for k, v in args.items() if k not in ("data", "callback", "unit")})
+            orig_pip(*a2, **kw2)
         except BaseException as e:  # noqa: BLE001
             rec.raised = e
             rec.pip_raised.append(e)
@@ -253,15 +256,21 @@ class SyncRequest:
     def __init__(self, rec, handler_ref, serial):
         self.rec, self.h, self.serial = rec, handler_ref, serial
         self.script = []
+        self.pending = b""
         self.send_fault = None
 
     def recv(self, n):
+        # like a socket: at most n bytes of what the peer has written (the handlers ask for 1024)
+        if self.pending:
+            out, self.pending = self.pending[:n], self.pending[n:]
+            return out
         if self.script:
             item = self.script.pop(0)
             if isinstance(item, BaseException):
                 self.rec.raised = item
                 raise item
-            return item
+            out, self.pending = item[:n], item[n:]
+            return out
         # leave the loop without any other effect (see module docstring of props/c12.py)
         self.rec.resets_at_exit = self.rec.handler_resets
         if self.serial:
